@@ -59,6 +59,8 @@ def run(ctx):
     ctx.counted('glob vs segment-wise interpretation', ev, nt, samples, {'known_sites_hit': sorted(known)})
     nm = globcommon.mixed_abs_rel(ctx, rng, 3 if ctx.quick else 12)
     ctx.counted('lists mixing absolute and relative patterns', nm, nm // 2, [{'patterns': ['<root>/other/*', 'sub/*']}])
+    nfe = globcommon.frontends_equiv(ctx, rng)
+    ctx.counted('dir_fd / iglob / pathlib / cloned matchers vs glob', nfe, nfe // 2, [{'pattern': 'vis/*'}])
     return ctx.finish(RULE)
 
 
